@@ -7,15 +7,22 @@ BREAKS = ["none", "only_old", "only_new", "below_old_threshold", "below_new_thre
           "skip", "unparsable", "wrong_name", "shipped_bad"]
 
 
-def rot_patterns(rng):
+def rot_patterns(rng, which=None):
     """root key sets per version: (keys, threshold)"""
-    return rng.choice([
+    pats = PATTERNS
+    return pats[which % len(pats)] if which is not None else rng.choice(pats)
+
+
+PATTERNS = ([
         [([0], 1), ([0], 1), ([0], 1), ([0], 1), ([0], 1)],                       # same key
         [([0], 1), ([7], 1), ([8], 1), ([9], 1), ([0], 1)],                       # disjoint each hop
         [([0, 7], 2), ([7, 8], 2), ([8, 9], 2), ([9, 0], 2), ([0, 7], 1)],        # overlapping, threshold 2
         [([0], 1), ([0, 7], 2), ([0, 7, 8], 3), ([7], 1), ([7, 8], 1)],           # threshold up and down
         [([0], 1), ([10], 1), ([12], 1), ([11], 1), ([13], 1)],                   # algorithm changes
         [([0, 7, 8], 2), ([0, 7, 8], 3), ([9], 1), ([9, 12], 2), ([0], 1)],
+        # the same key list throughout, only the threshold moves (down and up)
+        [([0, 7], 2), ([0, 7], 1), ([0, 7], 2), ([0, 7], 1), ([0, 7], 2)],
+        [([0, 7, 8], 3), ([0, 7, 8], 1), ([0, 7, 8], 2), ([0, 7, 8], 3), ([0, 7, 8], 1)],
     ])
 
 
@@ -108,10 +115,10 @@ def gen(chk):
     out = []
     n = 700 if chk.tier == "quick" else 12000
     # corpus: each breakage at each position of a 3-hop chain, each pattern
-    for brk in BREAKS:
-        for pos in (1, 2, 3):
-            for cs in (False, True):
-                out.append((3, rot_patterns(rng), brk, pos, cs))
+    for which in range(len(PATTERNS)):
+        for brk in BREAKS:
+            for pos in (1, 2, 3):
+                out.append((3, rot_patterns(rng, which), brk, pos, (which + pos) % 2 == 0))
     for _ in range(n):
         hops = rng.randint(0, 4)
         brk = rng.choice(BREAKS)
